@@ -16,6 +16,9 @@ def run(tier, seed):
         q = tier == "quick"
         res = xc.judge(rep, "data", 16 if q else 300, seed, wd, "d", OWNS, jobs=8 if q else 14)
         rep.cov["samples"] = [{"family": "data", "forms": len({d[0] for d in res.distinct}), "example": sorted(res.distinct)[:3]}]
+        t8 = xc.table8(rep, wd, True, False, workers=8 if q else 14)
+        rep.cov["exhaustive_8bit"] = {"spec_rows_from_tlc": t8["rows"], "form_variants": t8["variants"], "cases": t8["cases"],
+                                      "note": "every 8-bit operand pair x carry-in (all counts for shifts) of every 8-bit form/shape against tables printed by TLC from X86.tla"}
         xc.finish_cov(rep, res, mc, "Every non-control, non-stack form of spec/forms.json in register and memory shapes (9 addressing forms, FS/GS, "
                       "aliasing registers); components judged here: all registers, XMM, every memory byte, next RIP, 'form still executes'.")
         return rep.finish()
